@@ -283,6 +283,7 @@ _FIFO_Q = {"MaxTables": 3, "Times": {1, 2, 3}, "Sizes": {1, 2}, "BlobBytes": {0,
            "Ttls": {0, 1, 2}, "Nows": {0, 2, 3, 4}, "ExtraBlob": {0, 1}}
 _FIFO_T = {"MaxTables": 4, "Times": {1, 2, 3}, "Sizes": {1, 2}, "BlobBytes": {0, 2}, "Limits": {0, 1, 3, 5, 9, 14},
            "Ttls": {0, 1, 2, 5}, "Nows": {0, 2, 3, 4, 6}, "ExtraBlob": {0, 1}}
-PROFILES["C19"]["quick"]["fifo_model"] = {"constants": _FIFO_Q}
-PROFILES["C19"]["thorough"]["fifo_model"] = {"constants": _FIFO_T, "timeout": 3000, "workers": 12}
+PROFILES["C19"]["quick"]["fifo_model"] = {"constants": _FIFO_Q, "apalache_maxlen": 4}
+PROFILES["C19"]["thorough"]["fifo_model"] = {"constants": _FIFO_T, "timeout": 3000, "workers": 12,
+                                             "apalache_maxlen": 8, "apalache_timeout": 3000}
 
